@@ -228,11 +228,23 @@ static std::string compare(const V &v, const MV &m0, const Targets &target, cons
         long long          ei = 0;
         double             ed = 0;
         int                nk = 0; // QNumberType: 0 NaN, 1 Real, 2 Natural, 3 Integer
-        bool               eb = false, hb = false;
+        bool               eb = false, hb = false, check_i = true;
         switch (m.k) {
             case MV::UI: nk = 2; eu = m.u; ei = (long long)m.u; ed = (double)m.u; hb = true; eb = m.u > 0; break;
             case MV::SI: nk = 3; eu = (unsigned long long)m.i; ei = m.i; ed = (double)m.i; hb = true; eb = m.i > 0; break;
-            case MV::D: nk = 1; eu = (unsigned long long)(long long)m.d; ei = (long long)m.d; ed = m.d; hb = true; eb = m.d > 0; break;
+            case MV::D:
+                nk = 1;
+                ed = m.d;
+                hb = true;
+                eb = m.d > 0;
+                if (m.d >= 9223372036854775808.0 && m.d < 18446744073709551616.0) {
+                    eu      = (unsigned long long)m.d; // fits the unsigned getter; the signed one has no value to give
+                    check_i = false;
+                } else {
+                    eu = (unsigned long long)(long long)m.d;
+                    ei = (long long)m.d;
+                }
+                break;
             case MV::T: nk = 2; eu = 1; ei = 1; ed = 1; hb = true; eb = true; break;
             case MV::F:
             case MV::N: nk = 2; eu = 0; ei = 0; ed = 0; hb = true; eb = false; break;
@@ -266,7 +278,7 @@ static std::string compare(const V &v, const MV &m0, const Targets &target, cons
             snprintf(b, sizeof b, "%s: SetNumber() kind %d, model %s expects %d", path.c_str(), (int)qt, mdump(m).c_str(), nk);
             return b;
         }
-        if (v.GetUInt64() != eu || v.GetInt64() != ei || v.GetDouble() != ed || v.GetNumber() != ed) {
+        if (v.GetUInt64() != eu || (check_i && v.GetInt64() != ei) || v.GetDouble() != ed || v.GetNumber() != ed) {
             snprintf(b, sizeof b, "%s: GetUInt64/GetInt64/GetDouble = %llu/%lld/%g, model %s expects %llu/%lld/%g", path.c_str(),
                      (unsigned long long)v.GetUInt64(), (long long)v.GetInt64(), v.GetDouble(), mdump(m).c_str(), eu, ei, ed);
             return b;
@@ -416,6 +428,7 @@ struct VSys {
     V   TS, TU; // further pointees: a string and an Undefined value
     V   TP, TPU; // and pointers to the object and to the Undefined value (two-step chains)
     MV  m0, m1;
+    int ctor_mark = -1;
     Targets mt;
     VSys() {
         memset(raw0, 0xAB, sizeof raw0);
@@ -453,7 +466,8 @@ struct VSys {
                 "=true", "=false", "=null", "=7u", "=-3", "=2.5", "=\"s\"", "=\"\"", "=\"12\"", "={k:1}", "=[1,\"x\"]", "=R1", "=move(R1)", "=self",
                 "=String(\"s\")", "=const String&", "=StringView", "=ArrayT&&", "=ObjectT const&",
                 "=own array (const ArrayT& alias)", "=own object (const ObjectT& alias)", "=own string (const String& alias)",
-                "=18446744073709551615u", "=\"18446744073709551615\"", "=\"12x\"",
+                "=18446744073709551615u", "=\"18446744073709551615\"", "=\"12x\"", "=1e19",
+                "=own first child's characters (const Char_T*)", "[own first element's characters (const Char_T*)]",
                 "=ValueType::Null", "=ValueType::Array", "=ValueType::Object", "=ValueType::String",
                 "=own first child (const Value&)", "=move(own first child)", "+=own first element (const Value&)", "first element=whole (const Value&)",
                 "=move(own first child's container/string)", "+=move(own first element's array/string)", "Insert(\"c\",move(own first child))",
@@ -627,6 +641,9 @@ struct VSys {
     bool apply(int opi, std::string &err) {
         const OpD        &o    = ops()[(size_t)opi];
         const std::string path = o.path, act = o.act;
+        if (path.compare(0, 2, "R0") == 0) {
+            ctor_mark = (path == "R0:=") ? opi : -1;
+        }
         if (path == "R0:=") {
             R0->~V();
             memset(raw0, 0xAB, sizeof raw0);
@@ -1002,6 +1019,41 @@ struct VSys {
             } else if (act == "=ValueType::String") {
                 X = ValueType::String;
                 M = mS("");
+            } else if (act == "=1e19") {
+                X = 1e19; // a real between 2^63 and 2^64
+                M = mD(1e19);
+            } else if (act == "=own first child's characters (const Char_T*)" || act == "[own first element's characters (const Char_T*)]") {
+                // the text handed over is the storage of a string inside the value
+                MV *mc = nullptr;
+                if (M.k == MV::A && !M.items.empty()) {
+                    mc = &M.items[0];
+                } else if (M.k == MV::O && !M.had_removal && !M.members.empty()) {
+                    mc = &M.members[0].second;
+                }
+                if (mc == nullptr || mc->k != MV::S) {
+                    return false;
+                }
+                const V *c = ((const V &)X).GetValue(SizeT(0));
+                if (c == nullptr) {
+                    err = "GetValue(0) of a string member returned null";
+                    return true;
+                }
+                if (c->StringStorage() == nullptr) {
+                    return false; // an empty string that was moved from has no storage to hand over
+                }
+                const std::string text = mc->s;
+                if (act == "=own first child's characters (const Char_T*)") {
+                    X = c->StringStorage();
+                    M = mS(text);
+                } else {
+                    if (M.k != MV::A) {
+                        return false;
+                    }
+                    X[c->StringStorage()]; // an array indexed by a key becomes an object with that key
+                    M   = MV();
+                    M.k = MV::O;
+                    M.members.push_back({text, mU()});
+                }
             } else if (act == "=\"12x\"") {
                 X = "12x"; // a number followed by something else is not a number
                 M = mS("12x");
@@ -1243,7 +1295,11 @@ struct VSys {
         }
         return true;
     }
-    std::string key() { return mdump(m0) + "|" + mdump(m1); }
+    // A register that was just built by a constructor in dirty (0xAB) storage is a state of its own until the next operation on
+    // it: bytes of the payload that the constructor did not write are not part of the document model, but they decide what
+    // the next operation does. Without this mark such a state is merged with the same document reached by an assignment,
+    // and is never expanded.
+    std::string key() { return mdump(m0) + "|" + mdump(m1) + (ctor_mark >= 0 ? "|ctor" + std::to_string(ctor_mark) : std::string()); }
 };
 
 
